@@ -547,7 +547,12 @@ func AggTables(rt *rapid.T) []model.Stmt {
 		if rapid.IntRange(0, 5).Draw(rt, "g2null") == 0 {
 			row = append(row, model.Null())
 		} else {
-			row = append(row, model.Str(rapid.SampledFrom([]string{"1", "12", "2", "", "<nil>", "true", "23", "3", "a,b", "a", "1,2", ","}).Draw(rt, "g2")))
+			if rapid.IntRange(0, 7).Draw(rt, "g2bytes") == 0 {
+				// strings that are not UTF-8 (a Latin-1 export): distinct byte strings are distinct groups
+				row = append(row, model.Bytes([]byte(rapid.SampledFrom([]string{"M\xfcller", "M\xf6ller", "\xff", "\xfe", "M\ufffdller", "a\x00", "a"}).Draw(rt, "g2b"))))
+			} else {
+				row = append(row, model.Str(rapid.SampledFrom([]string{"1", "12", "2", "", "<nil>", "true", "23", "3", "a,b", "a", "1,2", ","}).Draw(rt, "g2")))
+			}
 		}
 		if allNull || rapid.IntRange(0, 2).Draw(rt, "nnull") == 0 {
 			row = append(row, model.Null())
